@@ -6,11 +6,13 @@ DRIVER = "drv_layers"
 LEAN_MODULES = ["MesaModel.Props.C11", "MesaModel.Props.C11Ball", "MesaModel.Props.C18Layers"]
 _T = [
     "C11_reach_iff_history", "C11_layers_never_share_an_array", "C11_descriptors_are_the_layer_dict", "C11_two_views_one_value", "C11_cell_write_read_through_layer",
-    "C11_layer_write_read_through_cell", "C11_single_cell_write_accepted_iff", "C11_value_changes_only_by_writes", "C11_read_after_write_persists",
+    "C11_layer_write_read_through_cell", "C11_write_frame_by_array", "C11_rebound_layers_are_one_value",
+    "C11_single_cell_write_accepted_iff", "C11_value_changes_only_by_writes", "C11_read_after_write_persists",
     "C11_set_cells_pointwise", "C11_modify_cells_pointwise", "C11_attached_layers_have_entries",
     "C11_set_in_place_modify_repoints", "C11_modify_cell_pointwise", "C11_write_through_live_reference",
     "C11_create_default", "C11_detach_keeps_values",
-    "C11_attach_exposes_layer", "C11_empty_view_is_emptiness", "C11_empties_readout_agrees", "C11_unsafe_write_is_the_only_way",
+    "C11_attach_exposes_layer", "C11_empty_view_is_emptiness", "C11_empties_readout_agrees", "C11_empty_view_wrong_at_most_where_written",
+    "C11_unsafe_write_is_the_only_way",
     "C11_cells_exact", "C11_select_exact", "C11_select_filters_only", "C11_select_one_extreme",
     "C11_select_list_is_mask", "C11_only_empty_is_actual_emptiness",
     "C11_reserved_names_are_cell_class_attributes", "C11_cell_protocol_names_reserved",
@@ -26,7 +28,7 @@ _T = [
     "C11_cast_rules_match_numpy", "C11_ufunc_types_match_numpy", "C11_cast_values_match_numpy",
     "C11_grid_attribute_is_layer", "C11_grid_attribute_assignment_refused", "C11_grid_attribute_never_replaces_layer",
     "C18_layers_add_reject_unchanged", "C18_layers_create_reject_unchanged", "C18_layers_add_rejects_exactly",
-    "C18_layers_step_reject_unchanged", "C18_layers_rejected_calls_invisible",
+    "C18_layers_step_reject_unchanged", "C18_layers_rebind_reject_unchanged", "C18_layers_rejected_calls_invisible",
 ]
 THEOREMS = ["Mesa.Layers." + t for t in _T]
 COUNTS = {"quick": 6000, "thorough": 150000}
